@@ -126,7 +126,8 @@ where
 {
     input
         .into_iter()
-        .filter_map(|t| LanguageIdentifier::try_from_bytes(t.as_ref()).ok())
+        // header list elements may carry optional whitespace (`"de, fr"` is split into `"de"` and `" fr"`)
+        .filter_map(|t| LanguageIdentifier::try_from_bytes(t.as_ref().trim_ascii()).ok())
         .collect()
 }
 
